@@ -373,6 +373,7 @@ def _check_param_wrapper(ctx: Ctx) -> None:
     fn_param = decorator.positional_params()[0]
     wa = wrapper.node.args
     problems = []
+    dropped: list[str] = []
     if not (wa.vararg and wa.kwarg):
         problems.append('wrapper signature is not (*args, **kwargs)')
     else:
@@ -424,13 +425,21 @@ def _check_param_wrapper(ctx: Ctx) -> None:
                         problems.append('the value of an obsolete keyword is not stored under its new name')
                     if len(stores) != 2:
                         problems.append(f'unexpected stores into {acc}: {stores}')
+                    # every value of an obsolete keyword reaches the store: no jump out of the loop body, no test on the value
+                    jumps = [n for n in ast.walk(lp) if isinstance(n, (ast.Continue, ast.Break, ast.Return))]
+                    valtests = [unparse(n.test) for n in ast.walk(iff) if isinstance(n, ast.If) and any(isinstance(x, ast.Name) and x.id == val for x in ast.walk(n.test))]
+                    if jumps or valtests:
+                        dropped.append(f'{"a `" + unparse(jumps[0]) + "`" if jumps else "the test `" + valtests[0] + "`"} inside the keyword loop lets some values of an obsolete keyword skip the store under the new name')
                     # the branch for a truthy new name must be the one that stores
                     okloop = True
                 if not okloop and not problems:
                     problems.append('no loop over the keyword arguments found')
-    ctx.add('C20.D5', 'deprecated.deprecated_parameters.wrapper', not problems, dp,
-            'keywords are renamed by the table and everything else is passed through' if not problems else '; '.join(problems),
-            detail='; '.join(problems))
+    if dropped:
+        ctx.add('C20.D5', 'deprecated.deprecated_parameters.wrapper', False, dp, dropped[0] + ': the old keyword then does not give the same result as the new one (the replacement runs with its default instead)', 'dropped', positive=True)
+    else:
+        ctx.add('C20.D5', 'deprecated.deprecated_parameters.wrapper', not problems, dp,
+                'keywords are renamed by the table and everything else is passed through' if not problems else '; '.join(problems),
+                detail='; '.join(problems))
 
 
 _OBSOLETE = re.compile(r'Use (\w+) instead of (\w+)')
